@@ -3,6 +3,7 @@ package evaluator
 import (
 	"bytes"
 	"html"
+	"sort"
 	"strings"
 
 	"github.com/textwire/textwire/v2/ast"
@@ -259,8 +260,8 @@ func (e *Evaluator) evalComponentStmt(node *ast.ComponentStmt, env *object.Env) 
 	newEnv := object.NewEnclosedEnv(env)
 
 	if node.Argument != nil {
-		for key, arg := range node.Argument.Pairs {
-			val := e.Eval(arg, env)
+		for _, key := range sortedKeys(node.Argument.Pairs) {
+			val := e.Eval(node.Argument.Pairs[key], env)
 
 			if isError(val) {
 				return val
@@ -637,8 +638,8 @@ func (e *Evaluator) evalArrayLiteral(
 func (e *Evaluator) evalObjectLiteral(node *ast.ObjectLiteral, env *object.Env) object.Object {
 	pairs := make(map[string]object.Object)
 
-	for key, value := range node.Pairs {
-		valueObj := e.Eval(value, env)
+	for _, key := range sortedKeys(node.Pairs) {
+		valueObj := e.Eval(node.Pairs[key], env)
 
 		if isError(valueObj) {
 			return valueObj
@@ -982,4 +983,18 @@ func (e *Evaluator) newError(
 ) *object.Error {
 	err := fail.New(node.Line(), e.ctx.AbsPath, "evaluator", format, a...)
 	return &object.Error{Err: err}
+}
+
+// sortedKeys returns the keys of an object literal in a fixed order, so that
+// the first failing entry is the same every time the literal is evaluated
+func sortedKeys(pairs map[string]ast.Expression) []string {
+	keys := make([]string, 0, len(pairs))
+
+	for key := range pairs {
+		keys = append(keys, key)
+	}
+
+	sort.Strings(keys)
+
+	return keys
 }
